@@ -199,7 +199,10 @@ func (e editor) node(from *Selection, to *Selection, m meta.HasDataDefinitions, 
 		if toChild, err = to.selekt(&toRequest); err != nil {
 			return err
 		}
-		defer toChild.Release()
+		if toChild != nil {
+			// (a constraint of the selection, depth= or fields= say, may keep the child from being made)
+			defer toChild.Release()
+		}
 		newChild = true
 	case editUpsert:
 
